@@ -84,6 +84,22 @@ def inject_cond(g, spec):
                 and not any(isinstance(x, str) and "\\path" in x for x in v):     # an escaped mapping is a literal: its values are not inspected
             kk = next(iter(v))
             out.append(("malformed path value", {k: dict(v, **{kk: {"path": [{"type": "list_valu"}]}})}))
+        # a data-path argument (the argument itself, an item of a list argument, a value of a mapping argument) one of whose parts
+        # holds a MALFORMED CONDITION: the path spec is recognised as one, so the error inside it is an error of the whole spec
+        typed = toks[-1].lower() in ("is_instance", "keys_is_instance") or any(t.lower() in ("type", "dtype") for t in toks[1:-1])
+        bad_part = g.r.choice([{"type": "map_value", "key": {"key.no_such_callable": 1}}, {"type": "list_value", "value": {"valu.equal_to": 1}},
+                               {"type": "map_value", "value": {"value.equal_to": 1, "value.truthy": None}},
+                               {"type": "map_value", "value": {"value.dtype.equal_to": "integer"}},
+                               {"type": "list_value", "index": {"index.size.equal_to": 1}}, {"type": "map_value", "value": {"value.length": 2}}])
+        bp = {"path": ["a", bad_part]}
+        if not typed:
+            if isinstance(v, list):
+                out.append(("malformed condition in a path item", {k: list(v) + [copy.deepcopy(bp)]}))
+            if isinstance(v, dict) and v and toks[-1].lower() in ("in_range", "not_in_range", "equal_to_approx", "items_contain") \
+                    and not any(isinstance(x, str) and "path" in x for x in v):
+                out.append(("malformed condition in a path value", {k: dict(v, **{next(iter(v)): copy.deepcopy(bp)})}))
+            if toks[-1].lower() in ("equal_to", "not_equal_to", "eq", "less_than", "lt", "greater_than", "gt", "in", "in_", "not_in", "keys_contain"):
+                out.append(("malformed condition in a path argument", {k: copy.deepcopy(bp)}))
         out.append(("several keys", dict(spec, **{("value.truthy" if "value.truthy" not in spec else "value.falsy"): None})))
         if toks[-1].lower() in ("is_instance", "keys_is_instance"):
             out.append(("unknown type name", {k: ["int", "integer"]}))
